@@ -295,6 +295,11 @@ func (r *Reader) initFields() error {
 			if err != nil {
 				return err
 			}
+			if org.Type == "dir" {
+				// A directory can't be hardlinked. Accepting it would let an
+				// (untrusted) TOC make a directory a descendant of itself.
+				return fmt.Errorf("%q is a hardlink to a directory %q", ent.Name, org.Name)
+			}
 			org.NumLink++ // original entry is referenced by this ent.Name.
 			ent = org
 		}
